@@ -65,6 +65,8 @@ def one_trace(tid, n, L, plus, rng, iters, root: Path, integer_terminals: bool, 
             cur, cn = q(rm.regret_matching_strategy(int(nid)))
             members = [Coalition(viable[i]) for i in range(c) if nid >> i & 1]
             rng.shuffle(members)
+            if q(rm.regret_matching_strategy(iter(members)))[0] != cur or q(rm.regret_matching_strategy(tuple(members)))[0] != cur:
+                cn = 1
             avg, an = q(rm.get_average_strategy(iter(members)))
             reg, _ = q(prev_reg[rank])
             ev0["nodes"].append({"id": int(nid), "cur": cur, "cur_nan": cn, "avg": avg, "avg_nan": an, "reg": reg, "dreg": [0] * len(reg),
@@ -116,7 +118,8 @@ def one_trace(tid, n, L, plus, rng, iters, root: Path, integer_terminals: bool, 
                 members = [Coalition(viable[i]) for i in range(c) if nid >> i & 1]
                 rng.shuffle(members)
                 cur_list_form, _ = q(rm.regret_matching_strategy(list(members)))     # the same node given as a list of coalitions
-                if cur_list_form != cur:
+                cur_iter_form, _ = q(rm.regret_matching_strategy(c_ for c_ in members))   # ... and as a one-shot generator
+                if cur_list_form != cur or cur_iter_form != cur:
                     cn = 1
                 avg, an = q(rm.get_average_strategy(members))
                 reg, _ = q(reg_now[rank])
